@@ -20,7 +20,7 @@ def run(ctx):
     out, base = "cmapvec", "cmap.base.json"
     os.makedirs(os.path.join(d, out), exist_ok=True)
     def cfg(tier, maxblocks):
-        return ("CONSTANTS\n" + pscommon.ps_consts(ctx) +
+        return ("CONSTANTS\n" + pscommon.ps_consts(ctx, floors={"opstack": 400}) +
                 '  Tier = "%s"\n  MaxBlocks = %d\n  OutFile = "%s"\n  BaseFile = "%s"\n  BaseHeap <- FreshHeap\n'
                 "INIT Init\nNEXT Next\nINVARIANT Emit\nINVARIANT Inv\nPROPERTY TablesOnlyGrow\nCHECK_DEADLOCK FALSE\n"
                 % (tier, maxblocks, out, base))
